@@ -1,5 +1,236 @@
 import GnpyModel.Scalar
-/- model file Bands (see DESIGN.md §2) -/
-namespace Gnpy
+/-
+C07 — which channels exist, in which order (gnpy/core/info.py `SpectralInformation.__init__`, `__add__`,
+`select_channels`, `is_in_band`, `demuxed_spectral_information`, `muxed_spectral_information`;
+gnpy/topology/request.py `filter_si`, `find_elements_common_range`, `propagate`; gnpy/core/utils.py
+`find_common_range`; gnpy/core/elements.py `Edfa.__call__`, `Multiband_amplifier.__call__`).
 
-end Gnpy
+Frequencies, slot widths and baud rates are integer Hz (the generators emit multiples of 6.25 GHz, for which the
+code's float comparisons `f ± slot/2` are exact); every comparison `f - slot/2 >= x` is written `2f - slot >= 2x`.
+Everything else a channel carries (label, tx power, tx OSNR, power offset, roll-off, the power shares …) is an
+opaque payload `pay` that travels with the channel: the per-channel arrays of the code are permuted/selected with
+the same index vector, which is exactly what a list of records expresses.
+-/
+namespace Gnpy.Bands
+
+/-- one channel -/
+structure Ch where
+  f : Int
+  slot : Int
+  baud : Int
+  pay : Nat
+deriving DecidableEq, Repr
+
+/-- an amplifier band `{"f_min", "f_max"[, "spacing"]}` -/
+structure Band where
+  fmin : Int
+  fmax : Int
+  spacing : Option Int := none
+deriving DecidableEq, Repr
+
+/-- error kinds of the code -/
+inductive Err where
+  | spectrum   -- SpectrumError
+  | value      -- ValueError
+deriving DecidableEq, Repr
+
+/-! ### construction: sort, overlap check, baud ≤ slot check -/
+
+/-- insertion before the first channel of greater or equal frequency (with `sortF` below: a stable sort) -/
+def insertF (x : Ch) : List Ch → List Ch
+  | [] => [x]
+  | y :: ys => if x.f ≤ y.f then x :: y :: ys else y :: insertF x ys
+
+/-- `indices = argsort(frequency)`; all per-channel arrays are permuted alike -/
+def sortF : List Ch → List Ch
+  | [] => []
+  | x :: xs => insertF x (sortF xs)
+
+/-- no `frequency[:-1] + slot_width[:-1]/2 > frequency[1:] - slot_width[1:]/2` on adjacent channels -/
+def noOverlapAdj : List Ch → Bool
+  | a :: b :: r => decide (2 * a.f + a.slot ≤ 2 * b.f - b.slot) && noOverlapAdj (b :: r)
+  | _ => true
+
+/-- no `baud_rate > slot_width` -/
+def baudOk (l : List Ch) : Bool := l.all (fun c => decide (c.baud ≤ c.slot))
+
+/-- `SpectralInformation.__init__` as far as the channel set is concerned -/
+def mkSpectrum (l : List Ch) : Except Err (List Ch) :=
+  let s := sortF l
+  if !noOverlapAdj s then .error .spectrum
+  else if !baudOk s then .error .spectrum
+  else .ok s
+
+/-! ### uniform grid -/
+
+/-- `utils.automatic_nch`: `int((f_max - f_min) // spacing)` (a negative count gives an empty `range`) -/
+def automaticNch (fmin fmax spacing : Int) : Nat := ((fmax - fmin) / spacing).toNat
+
+/-- `create_input_spectral_information`: `frequency = [f_min + spacing * i for i in range(1, nch + 1)]`, slot width =
+spacing, one baud rate for all; payload = position -/
+def gridChans (fmin fmax spacing baud : Int) : List Ch :=
+  (List.range (automaticNch fmin fmax spacing)).map
+    (fun (i : Nat) => { f := fmin + spacing * ((i : Int) + 1), slot := spacing, baud := baud, pay := i })
+
+/-- `create_input_spectral_information` as a whole: a negative channel count (`f_max` below `f_min`) is numpy's
+`ValueError('negative dimensions are not allowed')` from `ones(number_of_channels)` -/
+def gridSpectrum (fmin fmax spacing baud : Int) : Except Err (List Ch) :=
+  if (fmax - fmin) / spacing < 0 then .error .value else mkSpectrum (gridChans fmin fmax spacing baud)
+
+/-! ### band selection -/
+
+
+/-- `is_in_band`: `(f - slot/2 >= f_min) * (f + slot/2 <= f_max)` -/
+def inBand (b : Band) (c : Ch) : Bool :=
+  decide (2 * c.f - c.slot ≥ 2 * b.fmin) && decide (2 * c.f + c.slot ≤ 2 * b.fmax)
+
+/-- `demuxed_spectral_information`: `none` when no channel is selected, else `select_channels`
+(which builds a new SpectralInformation, i.e. re-validates) -/
+def demux (b : Band) (sp : List Ch) : Option (Except Err (List Ch)) :=
+  let sel := sp.filter (inBand b)
+  if sel.isEmpty then none else some (mkSpectrum sel)
+
+/-- `SpectralInformation.__add__`: concatenate and construct; a SpectrumError stays a SpectrumError -/
+def add2 (x y : List Ch) : Except Err (List Ch) := mkSpectrum (x ++ y)
+
+/-- `muxed_spectral_information`: `l[0] + mux(l[1:])`; the empty list is `ValueError('liste vide')` -/
+def mux : List (List Ch) → Except Err (List Ch)
+  | [] => .error .value
+  | [x] => .ok x
+  | x :: y :: r =>
+    match mux (y :: r) with
+    | .ok m => add2 x m
+    | .error e => .error e
+
+/-- the loop shared by `filter_si` and `Multiband_amplifier.__call__`: demux per band in order, skip empty
+selections -/
+def demuxAll : List Band → List Ch → Except Err (List (List Ch))
+  | [], _ => .ok []
+  | b :: r, sp =>
+    match demux b sp with
+    | some (.error e) => .error e
+    | some (.ok s) =>
+      match demuxAll r sp with
+      | .ok parts => .ok (s :: parts)
+      | .error e => .error e
+    | none => demuxAll r sp
+
+/-- `filter_si(path, equipment, si)` given the common range; no channel left is
+`ValueError('Defined propagation band does not match amplifiers band.')` -/
+def filterSi (commonRange : List Band) (sp : List Ch) : Except Err (List Ch) :=
+  match demuxAll commonRange sp with
+  | .error e => .error e
+  | .ok [] => .error .value
+  | .ok parts => mux parts
+
+/-! ### the common range of the amplifiers of a path (`utils.find_common_range`) -/
+
+/-- stable insertion sort by `f_min` (`sorted(amp, key=lambda x: x['f_min'])`) -/
+def insertB (x : Band) : List Band → List Band
+  | [] => [x]
+  | y :: ys => if x.fmin ≤ y.fmin then x :: y :: ys else y :: insertB x ys
+
+def sortB : List Band → List Band
+  | [] => []
+  | x :: xs => insertB x (sortB xs)
+
+/-- `remove_duplicates`: keep the first occurrence of every band list -/
+def removeDup : List (List Band) → List (List Band)
+  | [] => []
+  | a :: r => a :: (removeDup r).filter (fun x => x != a)
+
+/-- `calculate_spacing` without design bands -/
+def calcSpacing (first second : Band) (dflt : Int) : Int :=
+  match first.spacing, second.spacing with
+  | some a, some b => if a ≤ b then b else a
+  | some a, none => a
+  | none, some b => b
+  | none, none => dflt
+
+/-- Python `max` / `min` on two integers -/
+def imax (a b : Int) : Int := if a ≤ b then b else a
+def imin (a b : Int) : Int := if a ≤ b then a else b
+
+/-- the intersection of two bands when `f_min < f_max` -/
+def inter (first second : Band) (dflt : Int) : Option Band :=
+  if imax first.fmin second.fmin < imin first.fmax second.fmax then
+    some { fmin := imax first.fmin second.fmin, fmax := imin first.fmax second.fmax,
+           spacing := some (calcSpacing first second dflt) }
+  else none
+
+/-- one round of step 3: all non-empty pairwise intersections, `first` outer loop, `second` inner loop -/
+def intersectRound (common bands : List Band) (dflt : Int) : List Band :=
+  common.flatMap (fun first => bands.filterMap (fun second => inter first second dflt))
+
+/-- `find_common_range(amp_bands, default_f_min, default_f_max, default_spacing)`; every amplifier band has both
+edges (the `filter_valid_amp_bands` step is the identity then) -/
+def commonRange (ampBands : List (List Band)) (dfltMin dfltMax : Option Int) (dfltSpacing : Int) : List Band :=
+  let unique := removeDup (ampBands.map sortB)
+  match unique with
+  | [] =>
+    match dfltMin, dfltMax with
+    | some lo, some hi => [{ fmin := lo, fmax := hi, spacing := none }]
+    | _, _ => []
+  | first :: _ =>
+    sortB (unique.foldl (fun common bands => intersectRound common bands dfltSpacing) first)
+
+/-! ### elements of a path -/
+
+/-- what an element does to the channel set -/
+inductive Elem where
+  | edfa (bands : List Band)         -- `Edfa`: `params.bands`, only the first is used by `__call__`
+  | multiband (paramBands callBands : List Band)
+      -- `Multiband_amplifier`: `params.bands` (seen by find_elements_common_range) and the first band of every
+      -- amplifier in dict order (used by `__call__`)
+  | other                            -- Transceiver, Roadm, Fused, Fiber, RamanFiber: channel set untouched
+deriving Repr
+
+/-- `Edfa.__call__`: demux on the first band; nothing selected is a ValueError -/
+def edfaCall (bands : List Band) (sp : List Ch) : Except Err (List Ch) :=
+  match bands with
+  | [] => .error .value           -- `next(b for b in [])` raises (StopIteration): never built by the loaders
+  | b :: _ =>
+    match demux b sp with
+    | none => .error .value
+    | some r => r
+
+/-- `Multiband_amplifier.__call__` -/
+def multibandCall (bands : List Band) (sp : List Ch) : Except Err (List Ch) :=
+  match demuxAll bands sp with
+  | .error e => .error e
+  | .ok [] => .error .value
+  | .ok parts => mux parts
+
+def Elem.call (e : Elem) (sp : List Ch) : Except Err (List Ch) :=
+  match e with
+  | .edfa bands => edfaCall bands sp
+  | .multiband _ bands => multibandCall bands sp
+  | .other => .ok sp
+
+/-- the bands `find_elements_common_range` collects -/
+def ampBands (path : List Elem) : List (List Band) :=
+  path.filterMap (fun e =>
+    match e with
+    | .edfa b => some b
+    | .multiband b _ => some b
+    | .other => none)
+
+/-- `for el in path: si = el(si)` -/
+def callAll : List Elem → List Ch → Except Err (List Ch)
+  | [], sp => .ok sp
+  | e :: r, sp =>
+    match e.call sp with
+    | .ok sp' => callAll r sp'
+    | .error err => .error err
+
+/-- `request.propagate` as far as the channel set is concerned: build, filter once, cross every element -/
+def propagate (path : List Elem) (dfltMin dfltMax : Option Int) (dfltSpacing : Int) (l : List Ch) :
+    Except Err (List Ch) :=
+  match mkSpectrum l with
+  | .error e => .error e
+  | .ok si =>
+    match filterSi (commonRange (ampBands path) dfltMin dfltMax dfltSpacing) si with
+    | .error e => .error e
+    | .ok si' => callAll path si'
+
+end Gnpy.Bands
